@@ -145,6 +145,16 @@ CHECKS = {
               "SplineModel.add) on operands of pardim 1-3, dimension 2-3, rational or not, periodic or not, and 17 in-place operations (return the receiver, touch no bystander)."),
         note=TB + " C11: proof level applies to the consequences only; the signatures themselves are observed, not proved (numpy aliasing beyond np.shares_memory is not visible).",
         design='DESIGN.md section 8, C11'),
+    'C12': dict(
+        engine='objdiff',
+        technique='Coq proof (compatibility spec, knot-count arithmetic) + composition of C04/C05/C06/C08/C09 results + differential run of the extracted composite model vs make_splines_compatible/identical',
+        text=("PARTIAL proof level. Theorems in Properties/C12.v: make_splines_compatible leaves both objects with the larger dimension and common rationality and untouched bases; the insertion "
+              "counts min(c2-c1, p-1-c1) bring both knot multiplicities to their maximum. Map preservation is the composition of earlier theorems with their guards (insertion proved; order elevation "
+              "conditional; periodic lowering not proved). Correspondence: pairs of objects of equal pardim with different orders, knots, multiplicities, domains, periodicities, rationality and "
+              "dimensions; both post-states vs the extracted composite model (L1); same dimension/rationality, identical order/periodicity/knot vector on [0,1] in the requested directions, and "
+              "each object still equal to its old map at rescaled parameters with zero-padded coordinates (L2)."),
+        note=TB + " C12: inherits the findings about jump knots (order elevation) and small periodic bases.",
+        design='DESIGN.md section 8, C12'),
 }
 
 PENDING_REASON = "not claimed in this revision: model/theorems for this property are still being built (see DESIGN.md section 8 for the plan)"
